@@ -3,6 +3,7 @@
 package nitro
 
 import (
+	"math/rand"
 	"unsafe"
 
 	"github.com/couchbase/nitro/skiplist"
@@ -54,3 +55,6 @@ func (m *Nitro) VerifCmp(which int, a []byte, aBorn, aDead uint32, b []byte, bBo
 		return m.existCmp(unsafe.Pointer(x), unsafe.Pointer(y))
 	}
 }
+
+// VerifSeed makes the writer's level generator deterministic.
+func (w *Writer) VerifSeed(seed int64) { w.rand = rand.New(rand.NewSource(seed)) }
